@@ -69,6 +69,14 @@ def warm(src, scratch, env):
     return p.returncode, p.stdout[-2000:]
 
 
+def _has_violation(op):
+    try:
+        with open(op) as f:
+            return bool(json.load(f).get("violations"))
+    except Exception:  # noqa
+        return False
+
+
 def run_workers(prop, specs, scratch, env, mode="shard"):
     outs, errs = [], []
     pending = list(enumerate(specs))
@@ -107,6 +115,16 @@ def run_workers(prop, specs, scratch, env, mode="shard"):
                 errs.append(f"shard {i}: worker exit {rc}: {tail}")
             else:
                 outs.append(op)
+                if aggmod.FAIL_FAST and mode == "shard" and _has_violation(op):
+                    # self-validation: one violating shard decides; do not finish the workload
+                    for q in still + [r for r in running if r[0].poll() is None and r not in still]:
+                        try:
+                            q[0].kill()
+                            q[0].wait()
+                            q[3].close()
+                        except Exception:  # noqa
+                            pass
+                    return outs, errs, time.time() - t0
         running = still
         if running:
             time.sleep(0.05)
